@@ -416,7 +416,13 @@ func (ipcp *IPCPStateMachine) processConfigureOptions(opts []LCPOption) (ack, na
 			}
 
 			// Peer requests specific IP - check if it matches our assignment
-			if ipcp.config.PeerIP != nil && !requestedIP.Equal(ipcp.config.PeerIP) {
+			if ipcp.config.PeerIP == nil {
+				// No address is assigned to this session (yet): the peer must
+				// not pick one itself, same answer as for 0.0.0.0 above
+				reject = append(reject, opt)
+				continue
+			}
+			if !requestedIP.Equal(ipcp.config.PeerIP) {
 				// NAK with our assigned IP
 				nakOpt := LCPOption{
 					Type: IPCPOptIPAddress,
